@@ -20,14 +20,14 @@ out = ["# Seeded defects (written by fresh sub-agents from the property text onl
        "Each change was confirmed by `tools/seeded.py verify` in a scratch worktree (compiles, repository tests pass with it,",
        "its demonstration fails with and passes without it) and then applied to /repo (`git apply`), the quick tier of the",
        "checks was run, and the tree was restored (`git checkout -- .`).", "",
-       "(rounds 3 to 7 were run in a private copy of /repo and /verif, `tools/seeded.py run-scratch`, because background runs were using /repo).", "",
+       "(rounds 3 to 8 were run in a private copy of /repo and /verif, `tools/seeded.py run-scratch`, because background runs were using /repo).", "",
        "Round 1 = variants a, b; round 2 = c, d (asked to be hard to hit: sizes, boundaries, coincidences); round 3 = e, f (cooperating sites,",
        "multi-step sequences, less-travelled API paths); round 4 = g, h (feature interactions, alternate entry points, edge classification,",
        "order/aliasing); round 5 = i, j (composition of operations, text-encoding subtleties, performance-motivated approximations,",
        "defaults and optionals, error paths and partial state); round 6 = k, l (symmetric / self-consistent changes, coincidences of two",
        "values, call patterns such as idempotence and aliasing, a field forgotten on one path, first / last / only element); round 7 = m (one",
        "change per property, asked to be as hard to expose as possible: rare-but-legal encodings, trait-provided functionality, doc-comment",
-       "promises, leaks from neighbouring features, last iterations with trailing separators). The column 'before' is the outcome with the harness as it stood when that round's seeds were written, i.e. the",
+       "promises, leaks from neighbouring features, last iterations with trailing separators); round 8 = n (twelve properties: state shared between calls or clones, the second of two near-identical paths, narrowing / sign conversions, order of equals, Some(empty) vs None on one path, relations between two functions). The column 'before' is the outcome with the harness as it stood when that round's seeds were written, i.e. the",
        "independent number; 'caught by' is the outcome with the current harness (after the improvements the misses led to: DESIGN.md §11.5, §11.7, §11.8).", "",
        "| seed | confirmed | caught by (quick tier, current harness) | before | first failing sub-check / reason |", "|---|---|---|---|---|"]
 caught = 0
@@ -43,7 +43,7 @@ for name, m, notes in rows:
         before = ", ".join(m.get("caught_by_before", [])) or "missed"
     out.append(f"| {name} | {'yes' if m.get('confirmed') else 'NO'} | {', '.join(cb) if cb else '**missed**' if 'checks' in m else 'not run'} | {before} | {reason} |")
 out += ["", f"{caught} of {len(rows)} seeded changes are caught by the quick tier of at least one check (current harness).", ""]
-for rnd, vs in ((1, "ab"), (2, "cd"), (3, "ef"), (4, "gh"), (5, "ij"), (6, "kl"), (7, "m")):
+for rnd, vs in ((1, "ab"), (2, "cd"), (3, "ef"), (4, "gh"), (5, "ij"), (6, "kl"), (7, "m"), (8, "n")):
     rr = [(n, m) for n, m, _ in rows if n[-1] in vs]
     own_now = sum(1 for n, m in rr if n[:3] in m.get("caught_by", []))
     any_now = sum(1 for n, m in rr if m.get("caught_by"))
